@@ -107,7 +107,10 @@ def _model(rng):
           "min": rng.choice([None, 14, 21]), "target": rng.choice([None, 26, 33]), "max": rng.choice([None, 34]),
           "features": [], "libraries": []}
     for _ in range(rng.randint(0, 5)):
-        mo["perms"].append((rng.choice(["android.permission.INTERNET", "android.permission.CAMERA", "com.x.P", "android.permission.READ_SMS"]),
+        # permission names are opaque strings (PackageParser reads them verbatim): dotted, dot-less and leading-dot names,
+        # and the same name requested by several elements
+        mo["perms"].append((rng.choice(["android.permission.INTERNET", "android.permission.CAMERA", "com.x.P", "android.permission.READ_SMS",
+                                        "SYNC_DATA", ".LOCAL", "SYNC_DATA", pkg + ".SYNC_DATA"]),
                             rng.choice([None, None, 18, 22])))
     for kind in mo["components"]:
         for _ in range(rng.randint(0, 3)):
@@ -193,7 +196,7 @@ def generated_manifests(U):
     U.ensures("package, version code and name", (a.get_package(), a.get_androidversion_code(), a.get_androidversion_name()) ==
               (pkg, str(mo["versionCode"]), mo["versionName"]), got=(a.get_package(), a.get_androidversion_code(), a.get_androidversion_name()))
     want_p = sorted(set(p for p, _ in mo["perms"]))
-    U.ensures("requested permissions without duplicates", sorted(a.get_permissions()) == want_p and len(a.get_permissions()) == len(want_p),
+    U.ensures("requested permissions as written, without duplicates", sorted(a.get_permissions()) == want_p and len(a.get_permissions()) == len(want_p),
               got=sorted(a.get_permissions()), want=want_p)
     key = lambda t: (t[0], -1 if t[1] is None else t[1])
     U.ensures("each uses-permission with its maxSdkVersion", sorted((tuple(x) for x in a.uses_permissions), key=key) ==
